@@ -684,6 +684,45 @@ def _len_aliases(body):
     return cls
 
 
+def r03_27(run, model, rid="R03.27"):
+    run.rule(rid, "a recursive yes/no question about a type or a term is asked of the children with one connective: in every self-recursive "
+                  "function of the compiler that returns bool and matches on its argument, the arms that ask the question of sub-terms combine "
+                  "the answers either conjunctively throughout (`&&`, `.all(..)`, `if !q(child) { return false }`: occurs, is_concrete, unify) "
+                  "or disjunctively throughout (`||`, `.any(..)`, `if q(child) { return true }`: has_tparam, ty_contains_*); an arm that mixes "
+                  "the two, or uses the other one than its siblings, answers for one child only")
+    n = 0
+    for f in model.fns():
+        if f.body is None or f.test or not f.file.startswith("crates/compiler/src") or "/tests/" in f.file or "/pprint/" in f.file:
+            continue
+        if (f.node.get("ret") or "").replace(" ", "") != "bool" or not any(True for _ in S.calls(f.body, f.name)):
+            continue
+        ms = list(S.find(f.body, "Match"))
+        if not ms:
+            continue
+        per = []
+        for arm in ms[0]["arms"]:
+            if not any(True for _ in S.calls(arm["body"], f.name)):
+                continue
+            t = S.norm_ws(run.facts.text(f.file, arm["body"]["sp"])).replace(" ", "")
+            conj = ("&&" in t) or (".all(" in t) or re.search(r"if!(?:self\.)?" + f.name + r"\([^{}]*\)\{returnfalse", t) is not None
+            disj = ("||" in t) or (".any(" in t) or re.search(r"if(?:self\.)?" + f.name + r"\([^{}]*\)\{returntrue", t) is not None
+            per.append((arm, conj, disj))
+        if not per:
+            continue
+        n += 1
+        major_conj = sum(1 for _, c, d in per if c and not d) >= sum(1 for _, c, d in per if d and not c)
+        for arm, conj, disj in per:
+            pat = S.norm_ws(run.facts.text(f.file, arm["pat"]["sp"]))
+            former = re.sub(r"[^A-Za-z:|]+.*", "", pat.split("{")[0].split("(")[0])[:40]
+            ok = not (conj and disj) and not ((conj and not major_conj) or (disj and major_conj))
+            run.ob(rid, f"{f.name}|{former} combines its children like the other arms", ok, site(f.file, arm["sp"]),
+                   ("conjunctive" if conj else "disjunctive" if disj else "single child") if ok else
+                   f"this arm is {'mixed' if conj and disj else ('conjunctive' if conj else 'disjunctive')}, the predicate is {'conjunctive' if major_conj else 'disjunctive'}",
+                   witness="occurs: `params.iter().all(..) || occurs(ret)` ignores a hit in a parameter and skips the result: `|x| x(x)` binds 'a := ('a) -> 'b, "
+                           "the next substitution recurses until the stack overflows instead of `occurs check failed`")
+    run.floor(f"{rid}: recursive boolean predicates examined", n, 10)
+
+
 def r03_26(run, model):
     run.rule("R03.26", "a node is stamped with the expected type only where its type *is* a child's type: every arm of check_expr that builds "
                        "a node with `ty: expected.clone()` hands `expected` itself to the check of a value-producing child (operands of a numeric "
@@ -1353,6 +1392,7 @@ def run(run, model):
     run.try_rule(c07.r07_17, model)
     run.try_rule(r03_25, model)
     run.try_rule(r03_26, model)
+    run.try_rule(r03_27, model)
     from rules import c08
     run.try_rule(c08.r08_1, model)
     run.try_rule(c08.r08_2, model)
